@@ -39,6 +39,7 @@ pub fn dump_stages(w: &mut CaseWriter, tag: &str, cell: &Cell, symprec: f64, at:
         Ok(Ok(p)) => p,
         Ok(Err(e)) => {
             w.case(&s1req, &format!("err {}", err_name(&e)));
+            w.case(&format!("s9 {} ; none", tag), "skip retry s1"); // the real pipeline retries with other tolerances: not compared, counted
             return;
         }
         Err(m) => {
@@ -69,6 +70,7 @@ pub fn dump_stages(w: &mut CaseWriter, tag: &str, cell: &Cell, symprec: f64, at:
         Ok(Ok(s)) => s,
         Ok(Err(e)) => {
             w.case(&s3req, &format!("err {}", err_name(&e)));
+            w.case(&format!("s9 {} ; none", tag), "skip retry s3");
             return;
         }
         Err(m) => {
@@ -157,6 +159,43 @@ pub fn dump_stages(w: &mut CaseWriter, tag: &str, cell: &Cell, symprec: f64, at:
         &format!("s7 {} ; natoms {} ; perms {} ; sitemap {}", tag, prim.cell.num_atoms(), perms_str(&search.permutations), ints(prim.site_mapping.iter().map(|&x| x as i64))),
         &format!("orbits {}", ints(orbits.iter().map(|&x| x as i64))),
     );
+    // S9: glue of `MoyoDataset::new` + dataflow. Inputs: the outputs of the separately called stages above; expected output:
+    // what the real pipeline returns for the same input. If the real pipeline needed tolerance retries its stage inputs
+    // differ from the ones dumped here: the comparison is skipped for the case (and counted).
+    let wy9: Vec<String> = std.wyckoffs.iter().map(|x| format!("{}:{}:{}", x.letter, x.multiplicity, x.site_symmetry)).collect();
+    let s9req = format!(
+        "s9 {} ; linear {} ; sitemap {} ; pn {} ; ntrans {} ; trans {} ; nops {} ; ops {} ; perms {} ; number {} ; hallnum {} ; {} ; {} ; tlinear {} ; tshift {} ; ptlinear {} ; ptshift {} ; rot {} ; ssitemap {} ; wyck {} ; symprec {} ; angtol {}",
+        tag,
+        imat_row_major(&prim.linear),
+        ints(prim.site_mapping.iter().map(|&x| x as i64)),
+        prim.cell.num_atoms(),
+        prim.translations.len(),
+        trans.join(" "),
+        search.operations.len(),
+        ops_str(&search.operations),
+        perms_str(&search.permutations),
+        sg.number,
+        sg.hall_number,
+        cell_segments("std", &std.cell),
+        cell_segments("prim", &std.prim_cell),
+        imat_row_major(&std.transformation.linear),
+        vec3s(&std.transformation.origin_shift),
+        imat_row_major(&std.prim_transformation.linear),
+        vec3s(&std.prim_transformation.origin_shift),
+        mat_row_major(&std.rotation_matrix),
+        ints(std.site_mapping.iter().map(|&x| x as i64)),
+        wy9.join(" "),
+        fx(symprec),
+        angtol_str(at)
+    );
+    let _ = moyo::verif::trace::take();
+    let real = crate::pipeline::run_dataset(cell, symprec, at, setting);
+    let retries = moyo::verif::trace::take().iter().filter(|e| e.starts_with("update ")).count();
+    if retries > 0 {
+        w.case(&s9req, &format!("skip retry {}", retries));
+    } else {
+        w.case(&s9req, &crate::pipeline::dataset_segments(&real));
+    }
     let _ = Matrix3::<f64>::identity();
 }
 
